@@ -10,6 +10,8 @@ import ast
 import builtins
 import os
 import symtable
+
+from sa.canon import canonicalise
 import sys
 from dataclasses import dataclass, field
 
@@ -223,6 +225,7 @@ class Project:
         self.func_of_node = {}  # id(ast node) -> Func
         self.class_of_node = {}
         self.parse_errors = []
+        self.canon_counts = {}  # sa/canon.py rewrite -> applications
         self._load()
         self._index()
         self._bind()
@@ -251,6 +254,8 @@ class Project:
                     tree = ast.parse(source, filename=path)
                 except SyntaxError as e:
                     raise AnalysisError(f"{rel} does not parse: {e}") from e
+                for k, v in canonicalise(tree).items():
+                    self.canon_counts[k] = self.canon_counts.get(k, 0) + v
                 set_parents(tree)
                 m = Module(name=name, path=path, rel=rel, source=source, tree=tree, is_package=is_pkg)
                 self.modules[name] = m
